@@ -336,6 +336,61 @@ func (c *ctx) reuseEvents() {
 	for _, ev := range backendReuseEvents(c) {
 		c.emit(ev)
 	}
+	// the exported PART decoders on a long-lived value: a full part first, then one without the optional members
+	for _, up := range []bool{true, false} {
+		upp := up
+		mt := lorawan.UnconfirmedDataDown
+		if up {
+			mt = lorawan.UnconfirmedDataUp
+		}
+		wrap := func(mp *lorawan.MACPayload) interface{} {
+			return phyToVal(&lorawan.PHYPayload{MHDR: lorawan.MHDR{MType: mt}, MACPayload: mp})
+		}
+		hdr := func(fopts []byte) []byte {
+			return append(append(c.bytesN(4), byte(len(fopts)), byte(c.rnd.Intn(256)), byte(c.rnd.Intn(256))), fopts...)
+		}
+		fo := []byte{0x02} // LinkCheckReq (up) / LinkCheckAns needs payload (down): use DevStatusReq 0x06 for down
+		if !up {
+			fo = []byte{0x06}
+		}
+		full := append(append(hdr(fo), byte(1+c.rnd.Intn(200))), c.bytesN(1+c.rnd.Intn(8))...)
+		c.emit(reuseEvent(fmt.Sprintf("part/MACPayload/%v", up), func() interface{} { return &lorawan.MACPayload{} },
+			func(p interface{}, b []byte) error { return p.(*lorawan.MACPayload).UnmarshalBinary(upp, b) },
+			func(p interface{}) interface{} { return wrap(p.(*lorawan.MACPayload)) }, full, hdr(nil)))
+		c.emit(reuseEvent(fmt.Sprintf("part/FHDR/%v", up), func() interface{} { return &lorawan.FHDR{} },
+			func(p interface{}, b []byte) error { return p.(*lorawan.FHDR).UnmarshalBinary(upp, b) },
+			func(p interface{}) interface{} { return wrap(&lorawan.MACPayload{FHDR: *p.(*lorawan.FHDR)}) }, hdr(fo), hdr(nil)))
+		withPl, bare := []byte{0x03, 0x07}, []byte{0x02} // LinkADRAns then LinkCheckReq (up)
+		if !up {
+			withPl, bare = []byte{0x02, 0x0a, 0x03}, []byte{0x06} // LinkCheckAns then DevStatusReq (down)
+		}
+		dir := map[bool]string{true: "up", false: "down"}[up]
+		c.emit(reuseEvent(fmt.Sprintf("part/MACCommand/%v", up), func() interface{} { return &lorawan.MACCommand{} },
+			func(p interface{}, b []byte) error { return p.(*lorawan.MACCommand).UnmarshalBinary(upp, b) },
+			func(p interface{}) interface{} { return itemToVal(dir, p.(*lorawan.MACCommand)) }, withPl, bare))
+	}
+	{
+		ja28 := c.bytesN(28)
+		ja28[11] &= 0x0f
+		ja28[27] = 0
+		ja12 := c.bytesN(12)
+		ja12[11] &= 0x0f
+		c.emit(reuseEvent("part/JoinAcceptPayload", func() interface{} { return &lorawan.JoinAcceptPayload{} },
+			func(p interface{}, b []byte) error { return p.(*lorawan.JoinAcceptPayload).UnmarshalBinary(false, b) },
+			func(p interface{}) interface{} { out := M{}; jaToVal(out, p.(*lorawan.JoinAcceptPayload)); return out }, ja28, ja12))
+		c.emit(reuseEvent("part/CFListChannelPayload", func() interface{} { return &lorawan.CFListChannelPayload{} },
+			func(p interface{}, b []byte) error {
+				return p.(*lorawan.CFListChannelPayload).UnmarshalBinary(false, b)
+			},
+			func(p interface{}) interface{} {
+				ch := p.(*lorawan.CFListChannelPayload).Channels
+				out := []interface{}{}
+				for _, f := range ch {
+					out = append(out, freqVal(f))
+				}
+				return out
+			}, c.bytesN(15), c.bytesN(3*c.rnd.Intn(5))))
+	}
 	c.emit(reuseEvent("phy", func() interface{} { return &lorawan.PHYPayload{} },
 		func(p interface{}, b []byte) error { return p.(*lorawan.PHYPayload).UnmarshalBinary(b) },
 		func(p interface{}) interface{} { return phyToVal(p.(*lorawan.PHYPayload)) }, c.validFrameBytes(), c.validFrameBytes()))
